@@ -1501,6 +1501,31 @@ pub fn c04_grouped_chain() {
     let want: String = src.chars().filter(|c| c.is_ascii_lowercase()).collect();
     check!(leaves == want, "the operands appear in source order");
 }
+/// C20: a host function registered under a built-in's name replaces it - in both call styles and for every receiver kind.
+pub fn c20_builtin_override() {
+    use cel_interpreter::extractors::{Arguments, This};
+    let case: u8 = any();
+    crate::sym::assume(case <= 9);
+    let mut ctx = Context::default();
+    ctx.add_function("size", |This(_v): This<Value>| -> i64 { -1 });
+    ctx.add_function("contains", |This(_v): This<Value>, _x: Value| -> i64 { -2 });
+    ctx.add_function("max", |Arguments(_a): Arguments| -> i64 { -3 });
+    ctx.add_function("string", |This(_v): This<Value>| -> i64 { -4 });
+    let (src, want): (&str, i64) = match case {
+        0 => ("[1, 2].size()", -1),
+        1 => ("size([1, 2])", -1),
+        2 => ("'h\u{e9}llo'.size()", -1),
+        3 => ("{'a': 1}.size()", -1),
+        4 => ("b'ab'.size()", -1),
+        5 => ("[1, 2].contains(1)", -2),
+        6 => ("'ab'.contains('a')", -2),
+        7 => ("max(1, 2)", -3),
+        8 => ("[1, 2].max()", -3),
+        _ => ("1.string()", -4),
+    };
+    let got = Program::compile(src).expect("compiles").execute(&ctx);
+    check!(got == Ok(Value::Int(want)), "the function registered under a built-in's name is the one that runs, whatever the call style and receiver");
+}
 /// C04 visitor half: a run of k prefix operators applies the operator k times (an even run cancels).
 pub fn c04_prefix() {
     let (op, k, operand): (u8, u8, u8) = (any(), any(), any());
@@ -2067,6 +2092,7 @@ crate::replay_only! {
     #[kani::unwind(2)] c06_nested_operators: "off", "else-if ladders, nested conditionals, && / || chains of either grouping and double negation over logging operands through Program::compile + execute, against Rust's short-circuit evaluation", "9 shapes x 8 truth assignments";
     #[kani::unwind(2)] c07_method_too_few_arguments: "off", "receiver-style calls of positional host functions with too few arguments over logging operands, through Program::compile + execute", "three call shapes";
     #[kani::unwind(2)] c04_grouped_chain: "off", "parenthesised && / || groups inside a chain of the same operator through cel_parser::Parser::parse, the tree rendered back and compared", "2 operators x 6 groupings";
+    #[kani::unwind(2)] c20_builtin_override: "off", "host functions registered as size / contains / max / string, called in both styles on receivers of several kinds, through Program::compile + execute", "ten calls";
     #[kani::unwind(2)] c12_literal: "off", "a string / bytes literal token through Program::compile + execute against an independent decoder of the CEL literal syntax", "token text of up to 24 characters taken from the vector";
     #[kani::unwind(2)] c13_string_roundtrip: "off", "int(string(x)) / uint(string(x)) / double(string(x)) through Program::compile + execute", "payload bits from the vector";
     #[kani::unwind(2)] c13_literal: "off", "int / uint literals of every sign, radix and magnitude through Program::compile + execute", "text built from the vector";
